@@ -108,6 +108,8 @@ def build():
          requires=WR + [E('absent', '!old(self).data@.dom().contains(id)')],
          hints=[('start', None, 'broadcast use axiom_guard_resolved;')],
          ensures=[E('map', 'final(self).data@ == old(self).data@.insert(id, value)'), E('wf', 'final(self).data.wf()'),
+                  E('raw', 'final(self).data.inner.has(id) && final(self).data.inner.val(id) == value && final(self).data.mask@ == old(self).data.mask@.insert(id)'),
+                  E('raw_frame', 'forall|j: Index| #![trigger final(self).data.inner.val(j)] j != id ==> final(self).data.inner.val(j) == old(self).data.inner.val(j)'),
                   E('events', 'final(self).data.log() == old(self).data.log() + old(self).data.inner.ev_insert(id)', 'C12')] + FRAME_W)
     u.fn(S, [SIMPL, 'fn insert'], ret='r', props='C03 C04 C12', impl_header=HW, key='Storage(&mut)::insert', rules=N8,
          requires=WR,
@@ -116,4 +118,63 @@ def build():
                   E('ret', 'live(old(self).entities, e) ==> r.unwrap() == (if old(self).data@.dom().contains(e.0) { Some(old(self).data@[e.0]) } else { None })', 'C04'),
                   E('events', 'live(old(self).entities, e) ==> final(self).data.log() == old(self).data.log() + (if old(self).data@.dom().contains(e.0) { old(self).data.inner.ev_get_mut(e.0) } else { old(self).data.inner.ev_insert(e.0) })', 'C12'),
                   E('wf', 'final(self).data.wf()', 'C04')] + FRAME_W)
+    # ---- entry API (src/storage/entry.rs)
+    EN = 'src/storage/entry.rs'
+    EIMPL = "impl<'e, T, D> Storage<'e, T, D>"
+    D8 = N8 + [('N8', r"\bD\b(?!:)", "&'d mut MaskedStorage<T>")]
+    u.struct(EN, ['struct OccupiedEntry'], rules=[('N8', r"<'a, 'b: 'a, T: 'a, D: 'a>", "<'a, 'b: 'a, 'd: 'a, T: Component>"), ('N8', r"Storage<'b, T, D>", "Storage<'b, T, &'d mut MaskedStorage<T>>")])
+    u.struct(EN, ['struct VacantEntry'], rules=[('N8', r"<'a, 'b: 'a, T: 'a, D: 'a>", "<'a, 'b: 'a, 'd: 'a, T: Component>"), ('N8', r"Storage<'b, T, D>", "Storage<'b, T, &'d mut MaskedStorage<T>>")])
+    u.struct(EN, ['enum StorageEntry'], rules=[('N8', r"<'a, 'b: 'a, T: 'a, D: 'a>", "<'a, 'b: 'a, 'd: 'a, T: Component>"), ('N8', r"<'a, 'b, T, D>", "<'a, 'b, 'd, T>")])
+    SE = "StorageEntry<'a, 'e, 'd, T>"
+    ERULES = N8 + [('N8', r"StorageEntry<'a, 'e, T, D>", SE)]
+    u.fn(EN, [EIMPL, 'fn entry_inner'], ret='r', props='C04', impl_header=HW, key='Storage(&mut)::entry_inner', rules=ERULES,
+         requires=WR,
+         ensures=[E('occupied', 'old(self).data@.dom().contains(id) ==> (r matches StorageEntry::Occupied(o) && o.id == id && *o.storage == *old(self) && *final(o.storage) == *final(self))'),
+                  E('vacant', '!old(self).data@.dom().contains(id) ==> (r matches StorageEntry::Vacant(v) && v.id == id && *v.storage == *old(self) && *final(v.storage) == *final(self))')])
+    u.fn(EN, [EIMPL, 'fn entry'], ret='r', props='C03 C04', impl_header=HW, key='Storage(&mut)::entry', rules=ERULES + [_alloc.GEN_ONE_CLOSURE],
+         requires=WR,
+         ensures=[E('stale', '!live(old(self).entities, e) ==> r is Err && *final(self) == *old(self)', 'C03'),
+                  E('live', 'live(old(self).entities, e) ==> r is Ok', 'C04'),
+                  E('occupied', 'live(old(self).entities, e) && old(self).data@.dom().contains(e.0) ==> (r.unwrap() matches StorageEntry::Occupied(o) && o.id == e.0 && *o.storage == *old(self) && *final(o.storage) == *final(self))', 'C04'),
+                  E('vacant', 'live(old(self).entities, e) && !old(self).data@.dom().contains(e.0) ==> (r.unwrap() matches StorageEntry::Vacant(v) && v.id == e.0 && *v.storage == *old(self) && *final(v.storage) == *final(self))', 'C04')])
+    OH = "impl<'a, 'b, 'd, T> OccupiedEntry<'a, 'b, 'd, T> where T: Component,"
+    OREQ = lambda o: [E('wf', '%s.storage.data.wf()' % o), E('occ', '%s.storage.data@.dom().contains(%s.id)' % (o, o))]
+    u.fn(EN, ["impl<'a, 'b, T, D> OccupiedEntry<'a, 'b, T, D>", 'fn get'], ret='r', props='C04', impl_header=OH, key='OccupiedEntry::get', rules=N8, nth=0,
+         requires=[E('wf', 'old(self.storage).data.wf()'), E('occ', 'old(self.storage).data@.dom().contains(self.id)')],
+         ensures=[E('val', '*r == old(self.storage).data@[self.id]')])
+    u.fn(EN, ["impl<'a, 'b, T, D> OccupiedEntry<'a, 'b, T, D>", 'fn get_mut'], ret='r', props='C04 C12', impl_header=OH, key='OccupiedEntry::get_mut', rules=N8,
+         requires=OREQ('old(self)'),
+         ensures=[E('val', '*r == old(self).storage.data@[old(self).id]'),
+                  E('map', 'final(self).storage.data@ == old(self).storage.data@.insert(old(self).id, *final(r)) && final(self).id == old(self).id'),
+                  E('wf', 'final(self).storage.data.wf()'),
+                  E('events', 'final(self).storage.data.log() == old(self).storage.data.log() + old(self).storage.data.inner.ev_get_mut(old(self).id)', 'C12')])
+    u.fn(EN, ["impl<'a, 'b, T, D> OccupiedEntry<'a, 'b, T, D>", 'fn insert'], ret='r', props='C04 C12', impl_header=OH, key='OccupiedEntry::insert', rules=N8,
+         requires=OREQ('old(self)'),
+         ensures=[E('ret', 'r == old(self).storage.data@[old(self).id]'),
+                  E('map', 'final(self).storage.data@ == old(self).storage.data@.insert(old(self).id, component) && final(self).id == old(self).id'),
+                  E('wf', 'final(self).storage.data.wf()'),
+                  E('events', 'final(self).storage.data.log() == old(self).storage.data.log() + old(self).storage.data.inner.ev_get_mut(old(self).id)', 'C12')])
+    u.fn(EN, ["impl<'a, 'b, T, D> OccupiedEntry<'a, 'b, T, D>", 'fn remove'], ret='r', props='C04 C12', impl_header=OH, key='OccupiedEntry::remove', rules=N8,
+         requires=OREQ('self'),
+         ensures=[E('ret', 'r == old(self.storage).data@[self.id]'),
+                  E('map', 'final(self.storage).data@ == old(self.storage).data@.remove(self.id)'),
+                  E('wf', 'final(self.storage).data.wf()'),
+                  E('events', 'final(self.storage).data.log() == old(self.storage).data.log() + old(self.storage).data.inner.ev_remove(self.id)', 'C12')])
+    VH = "impl<'a, 'b, 'd, T> VacantEntry<'a, 'b, 'd, T> where T: Component,"
+    u.fn(EN, ["impl<'a, 'b, T, D> VacantEntry<'a, 'b, T, D>", 'fn insert'], ret='r', props='C04 C12', impl_header=VH, key='VacantEntry::insert', rules=N8,
+         requires=[E('wf', 'self.storage.data.wf()'), E('ents', 'ent_ok(self.storage.entities)'), E('vacant', '!self.storage.data@.dom().contains(self.id)')],
+         ensures=[E('val', '*r == component'),
+                  E('map', 'map_inserted(old(self.storage).data, final(self.storage).data, self.id, *final(r))'),
+                  E('wf', 'final(self.storage).data.wf()')])
+    # ---- drain (src/storage/drain.rs)
+    DR = 'src/storage/drain.rs'
+    u.struct(DR, ['struct Drain'])
+    u.fn(S, [SIMPL, 'fn drain'], ret='r', props='C04', impl_header=HW, key='Storage(&mut)::drain', rules=N8 + [('N1', r'Drain<T>', "Drain<'_, T>")],
+         ensures=[E('same', '*r.data == *old(self).data && *final(self).data == *final(r.data)')])
+    for (hdr, nm) in [("impl<'a, T> Join for Drain<'a, T>", 'join'), ("impl<'a, T> LendJoin for Drain<'a, T>", 'lend_join')]:
+        u.fn(DR, [hdr, 'fn get'], ret='r', props='C04 C06 C12', free='drain_%s_get' % nm, key='Drain_%s::get' % nm,
+             rules=[('N12', r"fn get(<'next>)?\(", "fn get<'a, 'next, T: Component>("), ('N12', r'Self::Value', "&'a mut MaskedStorage<T>")],
+             requires=[E('wf', 'old(value).wf()'), E('inmask', 'old(value)@.dom().contains(id)')],
+             ensures=[E('ret', 'r == old(value)@[id]'), E('map', 'final(value)@ == old(value)@.remove(id)'), E('wf', 'final(value).wf()'),
+                      E('events', 'final(value).log() == old(value).log() + old(value).inner.ev_remove(id)', 'C12')])
     return u
